@@ -35,6 +35,7 @@ type Op struct {
 		Rb  bool  `json:"rb"`
 		Gap int   `json:"gap"`
 		Off bool  `json:"off"`
+		Emp bool  `json:"emp"`
 		Nr  int   `json:"nr"`
 		Rel []int `json:"rel"`
 		Bx  bool  `json:"bx"`
@@ -49,7 +50,7 @@ func (o Op) class() string {
 	}
 	rel := append([]int{}, o.T.Rel...)
 	sort.Ints(rel)
-	return fmt.Sprintf("rb=%v gap=%v off=%v nr=%d k=%s pre=%v rel=%v bx=%v", o.T.Rb, o.T.Gap, o.T.Off, nr, o.K, o.K != "none" && o.At == 0, rel, o.T.Bx)
+	return fmt.Sprintf("rb=%v gap=%v off=%v emp=%v nr=%d k=%s pre=%v rel=%v bx=%v", o.T.Rb, o.T.Gap, o.T.Off, o.T.Emp, nr, o.K, o.K != "none" && o.At == 0, rel, o.T.Bx)
 }
 
 func (o Op) post() AbsState { return AbsState{Synced: o.Post.Synced, Rows: o.Post.Stored} }
@@ -66,8 +67,12 @@ type Plan struct {
 	NoBad                                   bool
 	GapSet                                  []int // Extend(k): runs of k eventless blocks in one step
 	MaxRuns                                 int
-	MinForkNum, SyncFrom                    int // shape long chains: forks / syncs only at or above these block numbers
-	SimNum, SimLen                          int // > 0: behaviours come from TLC simulation
+	MinRunBase                              int
+	ClassToks                               []string // value-classed event tokens
+	Fault0Only                              bool     // faults only right after / instead of the rollback transaction
+	LeafHeads                               bool     // the head switches only to leaves
+	MinForkNum, SyncFrom                    int      // shape long chains: forks / syncs only at or above these block numbers
+	SimNum, SimLen                          int      // > 0: behaviours come from TLC simulation
 	Flavors                                 []string
 	Stretch                                 int
 	MaxBeh                                  int // cap on replayed behaviours per flavour
@@ -89,6 +94,19 @@ func (p Plan) cfgFor(fl string) Cfg {
 		start = 1
 	}
 	return Cfg{D: p.D, MaxR: p.MaxR, Start0: start, ErrM: errm, Reorg: reorg}
+}
+
+// classToks lists k1_e_g for the given classes except the plain combination ok/ok.
+func classToks(eons, f2s []string) []string {
+	out := []string{}
+	for _, e := range eons {
+		for _, g := range f2s {
+			if e != "ok" || g != "ok" {
+				out = append(out, "k1_"+e+"_"+g)
+			}
+		}
+	}
+	return out
 }
 
 func intList(l []int) string {
@@ -121,8 +139,8 @@ func (p Plan) cfgText(errm, reorg string, sim bool) string {
 	}
 	fmt.Fprintf(&b, "CONSTANTS\n  MaxBlocks = %d\n  MaxNum = %d\n  MaxLeaves = %d\n  MaxEvents = %d\n  KeySeq <- cKeySeq\n",
 		p.MaxBlocks, p.MaxNum, p.MaxLeaves, p.MaxEvents)
-	fmt.Fprintf(&b, "  D = %d\n  MaxR = %d\n  Start0 = %d\n  ErrMode = %q\n  Reorg = %q\n  Precond = %q\n  FKinds = {%s}\n  Emit = TRUE\n  SimLen = %d\n  MinForkNum = %d\n  SyncFrom = %d\n  AllowBad = %s\n  GapSet = {%s}\n  MaxRuns = %d\n",
-		p.D, p.MaxR, p.Start0, errm, reorg, p.Precond, quoteList(p.FKinds), simLen, p.MinForkNum, p.SyncFrom, strings.ToUpper(fmt.Sprint(!p.NoBad)), intList(p.GapSet), p.MaxRuns)
+	fmt.Fprintf(&b, "  D = %d\n  MaxR = %d\n  Start0 = %d\n  ErrMode = %q\n  Reorg = %q\n  Precond = %q\n  FKinds = {%s}\n  Emit = TRUE\n  SimLen = %d\n  MinForkNum = %d\n  SyncFrom = %d\n  AllowBad = %s\n  GapSet = {%s}\n  MaxRuns = %d\n  MinRunBase = %d\n  MaxFaultAt = %d\n  LeafHeads = %s\n  ClassToks = {%s}\n",
+		p.D, p.MaxR, p.Start0, errm, reorg, p.Precond, quoteList(p.FKinds), simLen, p.MinForkNum, p.SyncFrom, strings.ToUpper(fmt.Sprint(!p.NoBad)), intList(p.GapSet), p.MaxRuns, p.MinRunBase, map[bool]int{true: 0, false: 1000000}[p.Fault0Only], strings.ToUpper(fmt.Sprint(p.LeafHeads)), quoteList(p.ClassToks))
 	fmt.Fprintf(&b, "SPECIFICATION Spec\nINVARIANT C15_InvCex\nINVARIANT EmitInv\nVIEW View\nCHECK_DEADLOCK FALSE\n")
 	return b.String()
 }
@@ -266,7 +284,7 @@ func replayBehaviour(p Plan, fl string, seed int64, hist []Op, enum bool, rec *r
 		case "switch":
 			w.Switch(op.A)
 		case "ext":
-			w.Extend(op.A)
+			w.Extend(op.At, op.A)
 		case "sync":
 			st.Syncs++
 			snap := w.PG.Snapshot()
@@ -414,6 +432,11 @@ func selectBehaviours(beh [][]Op, maxBeh int, seed int64) [][]Op {
 		var names []string
 		for _, h := range out {
 			k := h[len(h)-1].class()
+			for _, o := range h { // value-classed events: every class combination is replayed
+				if o.Op == "mine" && strings.Count(o.Ev, "_") == 2 {
+					k += " " + o.Ev
+				}
+			}
 			if _, ok := classes[k]; !ok {
 				names = append(names, k)
 			}
@@ -570,6 +593,30 @@ func plansC15(thorough bool) []Plan {
 		{Name: "gap-multi", MaxBlocks: 4, MaxNum: 3, MaxLeaves: 2, MaxEvents: d(1, 2), Keys: []string{"k1", "k2"}, NoBad: true,
 			D: 2, MaxR: 4, Start0: 1, Precond: "depth", FKinds: []string{"db"}, GapSet: []int{2, 3, 5}, MaxRuns: 1,
 			Flavors: []string{FlMulti}, Stretch: 1, MaxBeh: d(200, 2000), EnumEvery: d(8, 4)},
+		// admissibility boundaries: one event whose eon / second numeric field (gas limit, timestamp,
+		// expiration block) is ordinary, 2^63-1, 2^63, 2^64-1 (gas limit also 2^64+21000, 2^256-1), each
+		// alone and combined; the spec's Admissible decides, stored values are part of the row name
+		{Name: "adm-seq", MaxBlocks: 4, MaxNum: 3, MaxLeaves: 1, MaxEvents: 2, Keys: []string{}, NoBad: true,
+			ClassToks: classToks([]string{"ok", "max", "p63", "u64"}, []string{"ok", "max", "p63", "u64", "wrap", "top"}),
+			D:         constDepth, MaxR: constRange, Start0: 0, Precond: "depth", FKinds: []string{"db"}, Fault0Only: true,
+			Flavors: []string{FlSequencer}, Stretch: 1, MaxBeh: d(150, 1000), EnumEvery: d(8, 4)},
+		{Name: "adm-reg", MaxBlocks: 4, MaxNum: 3, MaxLeaves: 1, MaxEvents: 2, Keys: []string{}, NoBad: true,
+			ClassToks: classToks([]string{"ok", "max", "p63", "u64"}, []string{"ok", "max"}),
+			D:         constDepth, MaxR: constRange, Start0: 0, Precond: "depth", FKinds: []string{"db"}, Fault0Only: true,
+			Flavors: []string{FlRegistry}, Stretch: 1, MaxBeh: d(80, 500), EnumEvery: d(8, 4)},
+		{Name: "adm-multi", MaxBlocks: 4, MaxNum: 3, MaxLeaves: 1, MaxEvents: 2, Keys: []string{}, NoBad: true,
+			ClassToks: classToks([]string{"ok", "max", "p63", "u64"}, []string{"ok", "max", "p63", "u64"}),
+			D:         2, MaxR: 2, Start0: 1, Precond: "depth", FKinds: []string{"db"}, Fault0Only: true,
+			Flavors: []string{FlMulti}, Stretch: 1, MaxBeh: d(120, 800), EnumEvery: d(8, 4)},
+		// a committed rollback whose resync fails, then a SECOND fork that branches off below the rollback
+		// target, then a good head: 7 blocks, 3 leaves, depth 1 (MultiEventSyncer) ...
+		{Name: "rbfail-multi", MaxBlocks: 7, MaxNum: 3, MaxLeaves: 3, MaxEvents: 1, Keys: []string{"k1"}, NoBad: true,
+			D: 1, MaxR: 10, Start0: 1, Precond: "depth", FKinds: []string{"dbc"}, Fault0Only: true, LeafHeads: true,
+			Flavors: []string{FlMulti}, Stretch: 1, MaxBeh: d(200, 2000), EnumEvery: d(8, 4)},
+		// ... and with the constant depth 10 through compressed runs (two runs of 10 / 11 blocks), all three syncers
+		{Name: "rbfail-const", MaxBlocks: 4, MaxNum: 2, MaxLeaves: 3, MaxEvents: 1, Keys: []string{"k1"}, NoBad: true,
+			D: constDepth, MaxR: constRange, Start0: 1, Precond: "depth", FKinds: []string{"dbc"}, GapSet: []int{constDepth, constDepth + 1}, MaxRuns: 2, MinRunBase: 1, Fault0Only: true, LeafHeads: true,
+			Flavors: []string{FlRegistry, FlSequencer, FlMulti}, Stretch: 1, MaxBeh: d(100, 1000), EnumEvery: d(8, 4)},
 		// exhaustive, the constants of the two other syncers (depth 10, one range): every reorg rolls back to 0
 		{Name: "const-d10-small", MaxBlocks: d(5, 6), MaxNum: 4, MaxLeaves: 2, MaxEvents: 2, Keys: []string{"k1", "k2"},
 			D: constDepth, MaxR: constRange, Start0: 0, Precond: "depth", FKinds: all,
@@ -802,7 +849,7 @@ func histString(h []Op) string {
 		case "switch":
 			parts = append(parts, fmt.Sprintf("head(b%d)", o.A))
 		case "ext":
-			parts = append(parts, fmt.Sprintf("extend(%d)", o.A))
+			parts = append(parts, fmt.Sprintf("extend(b%d,+%d)", o.At, o.A))
 		case "sync":
 			if o.K == "none" {
 				parts = append(parts, "sync")
@@ -878,7 +925,7 @@ func replayBehaviourWithFault(p Plan, fl string, seed int64, hist []Op, f ConcFa
 		case "switch":
 			w.Switch(op.A)
 		case "ext":
-			w.Extend(op.A)
+			w.Extend(op.At, op.A)
 		case "sync":
 			lastStep := i == len(hist)-1
 			snap := w.PG.Snapshot()
